@@ -235,6 +235,30 @@ def gen_links(go):
     st = go['graph']['steps']; an = [a[0] for a in go['graph']['assets']]
     return [[an[s[2]], s[0], an[st[t][2]], st[t][0]] for s in st for _, lst in s[6] for (t, _) in lst]
 
+def gen_only_mutants(spec, k):
+    """ill-formed variants for the third column only (implementation vs generated code; the hand model is known to name
+    another class on most of them - notes/NOTES_langtype.md §8 - so it is not consulted): the exceptions that are NOT one of
+    the four classes of `languagegraph.py`.  Drawn from the case number (the stream of the existing check is unchanged)."""
+    r = random.Random(0xC15E * 1000003 + k)
+    out = []
+    withr = [(ai, si) for ai, a in enumerate(spec['assets']) for si, st in enumerate(a['attackSteps']) if st.get('reaches')]
+    fields = sorted({d['leftField'] for d in spec['associations']} | {d['rightField'] for d in spec['associations']}) or ['f']
+    def add(what, e):
+        s = copy.deepcopy(spec); ai, si = r.choice(withr)
+        st = s['assets'][ai]['attackSteps'][si]
+        st['reaches']['stepExpressions'].append({'type': 'collect', 'lhs': e, 'rhs': {'type': 'attackStep', 'name': st['name']}})
+        out.append((what, s))
+    if withr:
+        F = lambda n: {'type': 'field', 'name': n}
+        kind = k % 4
+        if kind == 0: add('set operation over an untyped operand', {'type': r.choice(['union', 'intersection', 'difference']), 'lhs': F('noSuchField'), 'rhs': F(r.choice(fields))})
+        if kind == 1: add('unknown subtype', {'type': 'subType', 'subType': 'NoSuchAsset', 'stepExpression': F(r.choice(fields + ['noSuchField']))})
+        if kind == 2: add('unknown variable', {'type': 'variable', 'name': 'noSuchVariable'})
+        if kind == 3: add('variable of an untyped operand', {'type': 'collect', 'lhs': F('noSuchField'), 'rhs': {'type': 'variable', 'name': 'noSuchVariable'}})
+    # (cyclic `extends` is not drawn: the real constructor then either ends in RecursionError or does not end at all - the
+    # `while associated_assets != []` walk over cyclic `sub_assets` - see notes/NOTES_genexec2_lang.md for the one-off run)
+    return out
+
 def gen_column(res, spec, quads, lg, g, q, report):
     """one well-formed case of the third column (`lg` = the real language graph of `spec`)"""
     if 'error' in g:
@@ -287,6 +311,7 @@ def run(seed, tier, lean) -> Result:
     model, gen = genexec.run_both([{'op': 'langgraph', 'case': i, 'lang': lang_payload(s), 'lookups': q} for i, (s, q, r, _) in enumerate(cases)],
                                   'gen_langgraph', rewrite=lambda p: {**p, 'queries': True, **gq[p['case']]}) if lean['build_ok'] else (None, None)
     mut_cases = []
+    gen_mut = []
     prev = None
     for i, (spec, quads, r, same_ends) in enumerate(cases):
         res.evaluations += 1
@@ -330,6 +355,7 @@ def run(seed, tier, lean) -> Result:
             # divergence is reported; the generated column is still compared and a disagreement counted
             gen_column(res, spec, quads, lg, gen[i], gq[i], report=False)
         for what, s in mutants(spec, r): mut_cases.append((what, s))
+        if gen is not None: gen_mut.extend(gen_only_mutants(spec, i))
         if len(res.samples) < 2: res.samples.append({'assets': obs['assets'][:3], 'links': obs['links'][:5]})
     mmodel, mgen = genexec.run_both([{'op': 'langgraph', 'case': i, 'lang': lang_payload(s), 'lookups': []} for i, (w, s) in enumerate(mut_cases)],
                                     'gen_langgraph') if lean['build_ok'] else (None, None)
@@ -353,6 +379,21 @@ def run(seed, tier, lean) -> Result:
             elif mgen[i]['model'].get('error') != gen_class(raised):
                 res.violations.append(genexec.divergence('C15', '_generate_graph', f'on the exception an ill-formed language ({what}) ends in: the implementation raises '
                     f'{raised}, the generated code {mgen[i]["model"].get("error", "returns a language graph")}', {'spec': s, 'what': what, 'impl_err': raised, 'generated_err': mgen[i]['model'].get('error')}))
+    if gen_mut:
+        gout = run_driver([{'op': 'gen_langgraph', 'case': i, 'lang': lang_payload(s)} for i, (w, s) in enumerate(gen_mut)])
+        for i, (what, s) in enumerate(gen_mut):
+            res.bump('generated_code_error_classes_compared'); res.bump('ill-formed (generated code only): ' + what)
+            try:
+                LanguageGraph(copy.deepcopy(s)); raised = None
+            except RecursionError: raised = 'RecursionError'
+            except Exception as e: raised = type(e).__name__
+            res.bump(f'ill-formed (generated code only): {what} -> {raised}')
+            if 'error' in gout[i]:
+                res.violations.append(genexec.driver_error('C15', gout[i]['error'], {'spec': s, 'what': what}))
+            elif gout[i]['model'].get('error') != (None if raised is None else gen_class(raised)):
+                res.violations.append(genexec.divergence('C15', '_generate_graph', f'on the exception an ill-formed language ({what}) ends in: the implementation '
+                    f'{"raises " + raised if raised else "returns a language graph"}, the generated code {"raises " + gout[i]["model"]["error"] if "error" in gout[i]["model"] else "returns a language graph"}',
+                    {'spec': s, 'what': what, 'impl_err': raised, 'generated_err': gout[i]['model'].get('error')}))
     return res
 
 def check_witness(w):
